@@ -111,8 +111,44 @@ func checkC14(c *Ctx) {
 		}
 	}
 
+	// helpers of the handler packages that talk to the Manager themselves (a lookup shared by
+	// several handlers) are judged like handlers: their last result is the handler's error
+	units := append([]*ssa.Function(nil), handlers...)
+	{
+		isH := map[*ssa.Function]bool{}
+		for _, h := range handlers {
+			isH[h] = true
+		}
+		var extra []*ssa.Function
+		for _, h := range handlers {
+			for fn := range p.SyncReach(h) {
+				if isH[fn] || fn.Parent() != nil || !(strings.HasSuffix(eng.FuncPkgPath(fn), "/pkg/rest") || strings.HasSuffix(eng.FuncPkgPath(fn), "/pkg/webui")) {
+					continue
+				}
+				res := fn.Signature.Results()
+				if res.Len() == 0 || !isErrorType(res.At(res.Len()-1).Type()) {
+					continue
+				}
+				calls := false
+				eng.EachInstr(fn, func(in ssa.Instruction) {
+					if call, ok := in.(*ssa.Call); ok {
+						cc := call.Common()
+						if eng.IsCallTo(cc, getMsg) || eng.IsCallTo(cc, srcRd) || eng.IsCallTo(cc, markSeen) || eng.IsCallTo(cc, rmMsg) {
+							calls = true
+						}
+					}
+				})
+				if calls {
+					isH[fn] = true
+					extra = append(extra, fn)
+				}
+			}
+		}
+		sortFuncs(extra)
+		units = append(units, extra...)
+	}
 	nProducers, nMutCalls := 0, 0
-	for _, H := range handlers {
+	for _, H := range units {
 		H := H
 		hname := shortFn(H)
 		type viol struct{ site, msg string }
@@ -234,7 +270,7 @@ func checkC14(c *Ctx) {
 				if prev == ssa.Instruction(mc) {
 					after = true
 				}
-				if call, ok := prev.(*ssa.Call); ok && after && eng.CalleeName(call.Common()) == "net/http.NotFound" {
+				if call, ok := prev.(*ssa.Call); ok && after && writes404(call, 0) {
 					wrote = true
 				}
 			}
@@ -302,9 +338,16 @@ func (c *Ctx) c14ParsedIndex(handlers []*ssa.Function) {
 		}
 	}
 	sortFuncs(fns)
+	paramActual = p.Actual
 	parseOf := func(v ssa.Value) *ssa.Call {
 		for i := 0; i < 8; i++ {
 			switch x := v.(type) {
+			case *ssa.Parameter:
+				// a helper indexing with its own parameter (attachmentAt(parts, num))
+				if w := p.Actual(x); w != v {
+					v = w
+					continue
+				}
 			case *ssa.Convert:
 				v = x.X
 				continue
@@ -1102,6 +1145,23 @@ func exprSelects(e ast.Expr, name string, info *types.Info, meta *types.Named) b
 	return found
 }
 
+// writes404: the call is http.NotFound, or a module helper that calls it on every path
+// (notFound(w, req) { http.NotFound(w, req); return nil }).
+func writes404(call *ssa.Call, depth int) bool {
+	if eng.CalleeName(call.Common()) == "net/http.NotFound" {
+		return true
+	}
+	g := eng.StaticCallee(call.Common())
+	if g == nil || depth > 2 || !eng.InModule(g) || len(g.Blocks) == 0 {
+		return false
+	}
+	is404 := func(in ssa.Instruction) bool {
+		c2, ok := in.(*ssa.Call)
+		return ok && writes404(c2, depth+1)
+	}
+	return (&eng.Search{Target: eng.IsReturnOf(g), Avoid: is404}).FromEntry(g) == nil
+}
+
 // helper404: g receives a Manager error in parameter prm; on every path where that error may
 // be storage.ErrNotExist, g must not return a non-nil error and must not return nil without
 // http.NotFound. Returns a complaint or "".
@@ -1136,7 +1196,7 @@ func (c *Ctx) helper404(sm *storeModel, g *ssa.Function, prm *ssa.Parameter, dep
 		}
 		wrote := false
 		for _, prev := range ps.Trace {
-			if call, ok := prev.(*ssa.Call); ok && eng.CalleeName(call.Common()) == "net/http.NotFound" {
+			if call, ok := prev.(*ssa.Call); ok && writes404(call, 0) {
 				wrote = true
 			}
 		}
